@@ -154,6 +154,18 @@ def check_interp(res, c, f, groups, cfg, rng, strategy, rotations, monitor_prefi
     with contextlib.redirect_stdout(io.StringIO()):
         vals = np.asarray(c(P))
     exp = np.array([f.eval(p) for p in P])
+    if strategy in ("dimwise", "modified") and d >= 2 and rng.random() < 0.5 and len(P) >= 4:
+        # the tensor-grid entry point of the same interpolant: a small, deliberately unsymmetric grid of probe coordinates
+        import itertools
+        pick = rng.sample(P, 4)
+        axes = [sorted(set(float(p[k]) for p in pick[:rng.randint(2, 4)])) for k in range(d)]
+        with contextlib.redirect_stdout(io.StringIO()):
+            gvals = np.asarray(c.interpolate_grid(axes))
+        gpts = list(itertools.product(*axes))
+        if gvals.shape[0] == len(gpts):
+            vals = np.vstack([vals, gvals])
+            exp = np.vstack([exp, np.array([f.eval(p) for p in gpts])])
+            res.count("interpolate_grid_entry_point")
     nsch = sum(abs(g.coefficient) for g in c.scheme)
     hmin = np.array(cfg.get("hmin", (b - a) / 2 ** 12))
     cond = float(np.max(np.maximum(np.abs(a), np.abs(b)) / hmin))
